@@ -45,6 +45,34 @@ type propConf struct {
 	Explanation string        `json:"explanation"` // for level other
 }
 
+// recordedFindings: the obligation names the committed ledger lists as failing on the unchanged tree.
+// Such an assertion is NOT assumed after its program point: assuming a condition that is known to be
+// false there would make every later obligation on the path vacuously true.
+var recordedFindings []string
+
+func loadRecordedFindings(verif string) {
+	recordedFindings = nil
+	b, err := os.ReadFile(filepath.Join(verif, "known_findings.jsonl"))
+	if err != nil {
+		return
+	}
+	for _, ln := range strings.Split(string(b), "\n") {
+		var k knownFinding
+		if json.Unmarshal([]byte(strings.TrimSpace(ln)), &k) == nil && k.Kind == "finding" {
+			recordedFindings = append(recordedFindings, k.Obligation)
+		}
+	}
+}
+
+func isRecordedFinding(name string) bool {
+	for _, k := range recordedFindings {
+		if k == name || (strings.HasSuffix(k, "*") && strings.HasPrefix(name, strings.TrimSuffix(k, "*"))) {
+			return true
+		}
+	}
+	return false
+}
+
 type knownFinding struct {
 	Kind       string `json:"kind"` // finding | fixed
 	Property   string `json:"property"`
@@ -128,6 +156,7 @@ func cmdCheck(args []string) int {
 	audit := fs.Bool("audit", false, "consistency audit: ask cvc5 (enumerative instantiation) and z3 whether the ASSUMPTIONS of each obligation context are contradictory, instead of solving the obligations")
 	fs.Parse(args)
 	verifDir = *verif
+	loadRecordedFindings(*verif)
 	start := time.Now()
 	seed := 0
 	if s := os.Getenv("VERIF_SEED"); s != "" {
